@@ -124,8 +124,8 @@ VHdr(ev) ==
     ELSE "ok"
 
 \* BEC2's key class loaded from ANY legal DER form of a P-256 public key yields the key's raw 64-byte X||Y
-VHdr2(ev) ==
-    IF Len(ev.raw) # 64 THEN "raw-length"
+VHdr2(ev) ==      \* (also used for compressed point strings of every curve: the decoded key must be THIS key)
+    IF Len(ev.raw) = 0 \/ Len(ev.raw) % 2 # 0 THEN "raw-length"
     ELSE IF ~ev.ok THEN "legal-der-form-rejected"
     ELSE IF ev.back # ev.raw THEN "raw-form-is-not-the-key"
     ELSE "ok"
